@@ -197,7 +197,9 @@ def start_state_from_dask(dsk, cache=None, sortkey=None, keys=None):
             dependencies[key]
             for d in dependents[key]:
                 if d in waiting:
-                    waiting[d].remove(key)
+                    # ``key`` is missing from the set when the caller's cache
+                    # already held a value for this literal
+                    waiting[d].discard(key)
                     if not waiting[d]:
                         del waiting[d]
                         ready_set.add(d)
